@@ -175,6 +175,8 @@ class Plumbing:
         self._effects_of(self.save, single_assignment_env(self.save.node), effects, "", 0)
         for i, e in enumerate(effects):
             e.order = i
+            if e.file in (None, "?", ""):
+                raise AnalysisError(f"{self.save.loc(e.node)}: cannot resolve which checkpoint file `{src(e.node)[:60]}` opens ({e.api}); the file effects of save cannot be read")
         return effects
 
     def _effects_of(self, f: FuncInfo, env: dict[str, ast.expr], effects: list[FileEffect], outer_cond: str, depth: int) -> None:
@@ -396,6 +398,10 @@ class Plumbing:
                     self.load_reads.append(FileEffect(order, file, "h5py.File", mode, s.value))
                     order += 1
         self.load_roots = roots
+        # every read API call in load must have been attributed to a file; an unread one would surface as a bogus "written but never read back"
+        apis = [c for c in calls_in(f.node) if self.prog.qualify(f.module, dotted(c.func) or "") in ("json.load", "pickle.load", "pandas.read_csv", "h5py.File")]
+        if len(apis) != len(self.load_reads) or any(e.file in (None, "?", "") for e in self.load_reads):
+            raise AnalysisError(f"{f.loc(f.node)}: {len(apis)} read call(s) in load_calibrator_state but only {len([e for e in self.load_reads if e.file not in (None, '?', '')])} could be attributed to a checkpoint file")
         out: list[Storage] = []
         for el in rets[0].value.elts:
             out.append(self._classify_load(f, el, roots, env))
